@@ -26,7 +26,7 @@ from . import c01_law
 RULE = ('scenario = one mesh + one vector/composite element or combination of bases + one coupling integrand / '
         'one elemental-data object / one block layout; distinct = distinct (operation, mesh kind, basis kind, '
         'element, integrand or data); non-trivial = components with different DOF layouts or >= 2 cells')
-BOUND = 2 ** 26
+BOUND = 2 ** 24
 
 
 def _ints(a, s):
@@ -354,6 +354,7 @@ def _coo_event(coo, S, rec, extra=None):
             for d in rec.get('dots', []):
                 x = np.array(d['x'], dtype=np.float64)
                 D = np.array(d['D'], dtype=np.int64) if d['D'] else None
+                fem.guard_sum(ev['coo']['data'], int(np.abs(x).max()) if len(x) else 0)
                 yv = np.asarray(coo.dot(x, D=D), dtype=np.float64)
                 sc = np.full(len(yv), float(S))
                 sc[d['D']] = 1.0                      # kept entries are copies of x, not entries of the scaled tensor
@@ -557,11 +558,15 @@ LAW_COMPOSITES = {
 
 
 def _frac_sum(a, w):
+    """sum w * a and its group scale: sum |w a| plus sum |w| max|a| (single entries can be pure round-off)"""
     s = m = Fraction(0)
-    for x, y in zip(np.asarray(a, dtype=np.float64).ravel(), np.asarray(w).ravel()):
+    a = np.asarray(a, dtype=np.float64)
+    for x, y in zip(a.ravel(), np.asarray(w).ravel()):
         f = Fraction(float(x)) * int(y)
         s += f
         m += abs(f)
+    if a.size:
+        m += Fraction(float(np.abs(a).max())) * int(np.abs(np.asarray(w)).sum())
     return s, m
 
 
@@ -627,7 +632,10 @@ def exec_law(rec):
                 Vv[ix[n]] = vn
                 s1, m1 = fem.frac_pairing(A, Vv, Uv)
                 s2, m2 = fem.frac_pairing(Anm, vn, um)
-                laws.append(('BlockLaw', s1, s2, m1 + m2))
+                Fm = {k: fem.field_magnitudes(d[k], ('value',)) for k in d}
+                floor = fem.term_magnitude(F, fem.leaf_magnitudes(basis, Uv, ALL), fem.leaf_magnitudes(basis, Vv, ALL),
+                                           Fm, prm, accs, basis.dx)
+                laws.append(('BlockLaw', s1, s2, m1 + m2 + floor))
         return laws
     laws, err = guarded(run, 120)
     ev = {'a': 'Law', 'err': err, 'laws': []}
